@@ -703,6 +703,25 @@ func (e *SpecEnv) call(n *ast.CallExpr) Term {
 		o.cur = cur
 		o.st = cur.snaps[id.Name]
 		return o.expr(n.Args[1])
+	case "entry":
+		// entry(N, e): e in the state in which loop N was reached on this path
+		argN(2)
+		lit, ok := n.Args[0].(*ast.BasicLit)
+		if !ok {
+			e.stale("entry(N, e): N must be a loop ordinal")
+		}
+		cur := e.st
+		if e.cur != nil {
+			cur = e.cur
+		}
+		snap := cur.snaps["loop-entry-"+lit.Value]
+		if snap == nil {
+			e.stale("entry(%s, ...): loop %s has not been reached here", lit.Value, lit.Value)
+		}
+		o := *e
+		o.cur = cur
+		o.st = snap
+		return o.expr(n.Args[1])
 	case "head":
 		argN(1)
 		if e.head == nil {
